@@ -660,7 +660,8 @@ def _run_shard(a):
         finally:
             ctx.close()
     except Exception:
-        ctx.stats.inconclusive["harness exception: " + traceback.format_exc()[-1500:]] += 1
+        tb = traceback.format_exc().strip().split("\n")
+        ctx.stats.inconclusive["harness exception: " + " | ".join(x.strip() for x in tb[-5:])] += 1
     finally:
         shutil.rmtree(scratch, ignore_errors=True)
     return ctx.stats
@@ -711,7 +712,7 @@ def finish(prop, level, tier, seed, stats, rule, t0, assumptions=(), exhaustive=
         maxima=stats.maxima,
         commands_per_variant=dict(stats.variants),
         inconclusive=inc,
-        inconclusive_detail={k[:300]: v for k, v in list(stats.inconclusive.items())[:10]},
+        inconclusive_detail={k[:700]: v for k, v in list(stats.inconclusive.items())[:10]},
         known_findings_seen=dict(stats.known),
         observations_not_asserted=dict(stats.notes),
         distinct_violation_signatures=len(seen),
@@ -735,6 +736,11 @@ def finish(prop, level, tier, seed, stats, rule, t0, assumptions=(), exhaustive=
         print("[%s] harness failure: nothing conclusive observed" % prop)
         for k in list(stats.inconclusive)[:3]:
             print("  inconclusive: %s" % k[:1500])
+        return 2
+    if any(k.startswith("harness exception") for k in stats.inconclusive):
+        print("[%s] harness failure: a shard raised an exception" % prop)
+        for k in [k for k in stats.inconclusive if k.startswith("harness exception")][:3]:
+            print("  %s" % k[:1500])
         return 2
     if inc and inc > max(5, stats.evaluations // 20):
         print("[%s] harness failure: too many inconclusive observations (%d)" % (prop, inc))
